@@ -92,3 +92,37 @@ func (w *World) Refund(list [][2]interface{}) {
 	}
 	w.out.Emit(line, w.stateLine())
 }
+
+// installMainNode puts a stand-in for the main-node contract at common.MainNodeContract(): it emits four
+// logs whose data is the 32-byte word ORIGIN xor 0xaa00…00, which minerNodeExecutor takes as the new contract account.
+func (w *World) installMainNode() {
+	mask := make([]byte, 20)
+	mask[0] = 0xaa
+	code := append([]byte{0x32, 0x73}, mask...) // ORIGIN, PUSH20 mask
+	code = append(code, 0x18, 0x60, 0x00, 0x52) // XOR, MSTORE(0)
+	for i := 0; i < 4; i++ {
+		code = append(code, 0x60, 0x20, 0x60, 0x00, 0xa0)
+	}
+	code = append(code, 0x00)
+	w.adb.SetCode(common.MainNodeContract(), code)
+}
+
+func addrPlusOne(a common.Address) common.Address {
+	a[0] ^= 0xaa
+	return a
+}
+
+// QueueNode queues an OperatorNode transaction (type 7): the sender, owner of a miner, pays 10 RPG to have
+// its miner's account replaced by a contract account. spoil = sender owns no miner.
+func (w *World) QueueNode(src common.Address) *QTx {
+	ok := false
+	for _, r := range w.miners {
+		if r.account == src {
+			ok = true
+		}
+	}
+	tx := w.nextTx(&types.Transaction{Source: src.GetHexString(), Type: types.TransactionTypeOperatorNode})
+	q := &QTx{line: fmt.Sprintf("tx node %s %d", hexAddr(src), b2i(ok)), tx: tx, feat: map[string]bool{"node": true}}
+	w.queue = append(w.queue, q)
+	return q
+}
